@@ -8,7 +8,7 @@ use crate::peer::ServerParams;
 use crate::runner::{Outcome, Prop, Tier};
 use rdp::core::client::RdpClient;
 use rdp::core::event::{PointerButton, PointerEvent, RdpEvent};
-use rdp::model::error::{Error, RdpErrorKind};
+
 use serde_json::{json, Value};
 use stateright::{Checker, Model, Property};
 use std::collections::BTreeSet;
@@ -237,7 +237,8 @@ pub fn step(l: &mut Live, ev: usize) -> Result<Key, (String, String)> {
             }
             match (lenient, &wr) {
                 (true, Ok(())) => {}
-                (false, Err(Error::RdpError(e))) if e.kind() == RdpErrorKind::InvalidAutomata => {}
+                // "refused": any error will do (the statement does not name the kind)
+                (false, Err(_)) => {}
                 _ => return Err(("input-outside-window-wrong-result".into(), format!("after {} (state {}) {} returned {:?}", name, post, if lenient { "try_write" } else { "write" }, wr.map_err(|e| format!("{:?}", e))))),
             }
         }
